@@ -238,7 +238,7 @@ VARIANTS = [("async", "none"), ("sync", "none"), ("async_ot", "none"), ("async_o
 QUERY = "query Q($a: X, $b: X) { f(a: $a, b: $b) }"
 
 
-def run_variant(kind, tv, vspec, kwargs):
+def run_variant(kind, tv, vspec, kwargs, opname="Q", calls=1):
     cls = clients.bundled_class(kind)
     is_async = clients.BUNDLED[kind][2]
     captured = []
@@ -251,23 +251,30 @@ def run_variant(kind, tv, vspec, kwargs):
     ctx = Ctx()
     variables = {k: build(s, ctx) for k, s in vspec}
     before = {k: v for k, v in c.__dict__.items()}
-    try:
-        resp = clients.call(is_async, c.execute, QUERY, "Q", variables, **kwargs)
-        outcome = ("ok", resp.status_code)
-    except BaseException as e:  # noqa
-        outcome = ("exc", type(e).__name__)
+    outcome = None
+    for _ in range(calls):  # the SAME variables object is passed again: a call must not consume / mutate the caller's structure
+        try:
+            if opname == "<omitted>":
+                resp = clients.call(is_async, c.execute, QUERY, variables=variables, **kwargs)
+            else:
+                resp = clients.call(is_async, c.execute, QUERY, opname, variables, **kwargs)
+            outcome = ("ok", resp.status_code)
+        except BaseException as e:  # noqa
+            outcome = ("exc", type(e).__name__)
+            break
     after = {k: v for k, v in c.__dict__.items()}
     mutated = [k for k in after if k not in before or before[k] is not after[k]]
     return captured, outcome, mutated
 
 
-def check_tree(vspec, kwargs, kname):
+def check_tree(vspec, kwargs, kname, opname="Q", calls=1):
     """Returns (problems, tags)."""
     problems = []
     ref_vars, uploads, flags = reference(vspec)
     results = {}
+    want_opname = None if opname in (None, "<omitted>") else opname
     for kind, tv in VARIANTS:
-        captured, outcome, mutated = run_variant(kind, tv, vspec, kwargs)
+        captured, outcome, mutated = run_variant(kind, tv, vspec, kwargs, opname, calls)
         results[(kind, tv)] = (captured, outcome)
         if mutated:
             INFO["client_attributes_rebound_by_execute"] = sorted(set(INFO.get("client_attributes_rebound_by_execute", [])) | set(mutated))
@@ -281,10 +288,12 @@ def check_tree(vspec, kwargs, kname):
     if outcome[0] != "ok":
         problems.append(("request_failed", f"{outcome}"))
         return problems, flags
-    if len(captured) != 1:
-        problems.append(("request_count", f"{len(captured)} requests"))
+    if len(captured) != calls:
+        problems.append(("request_count", f"{len(captured)} requests for {calls} calls"))
         return problems, flags
-    r = captured[0]
+    if calls > 1 and normalise(captured[0]) != normalise(captured[-1]):
+        problems.append(("second_call_with_same_variables_differs", "re-using the caller's variables object for a second call produced a different request"))
+    r = captured[-1]
     if r["method"] != "POST":
         problems.append(("method", r["method"]))
     for hk, hv in (kwargs.get("headers") or {}).items():
@@ -301,7 +310,7 @@ def check_tree(vspec, kwargs, kname):
         body = r["json"]
         if set(body) != {"query", "operationName", "variables"}:
             problems.append(("body_keys", f"{sorted(body)}"))
-        if body.get("query") != QUERY or body.get("operationName") != "Q":
+        if body.get("query") != QUERY or body.get("operationName") != want_opname or "operationName" not in body:
             problems.append(("query_or_name", f"{body.get('query')!r} {body.get('operationName')!r}"))
         if exact and body.get("variables") != ref_vars:
             problems.append(("variables_json", f"{body.get('variables')!r} expected {ref_vars!r}"))
@@ -318,7 +327,7 @@ def check_tree(vspec, kwargs, kname):
         return problems, flags
     ops = json.loads(parts["operations"]["data"])
     fmap = json.loads(parts["map"]["data"])
-    if set(ops) != {"query", "operationName", "variables"} or ops.get("query") != QUERY or ops.get("operationName") != "Q":
+    if set(ops) != {"query", "operationName", "variables"} or ops.get("query") != QUERY or ops.get("operationName") != want_opname:
         problems.append(("operations_part", f"{ops!r}"))
     if exact and ops.get("variables") != ref_vars:
         problems.append(("operations_variables", f"{ops.get('variables')!r} expected {ref_vars!r}"))
@@ -602,6 +611,12 @@ def main(tier):
             problems, flags = check_tree(vspec, kw, kname)
             for clause, detail in problems:
                 rep.violation(clause, feats | {f"kwargs:{kname}"}, detail, {"variables": vspec, "kwargs": kw})
+            if kname == "none" and size_total(vspec) <= (3 if tier == "quick" else 4):
+                for opn, cl in ((None, 1), ("<omitted>", 1), ("Q", 2)):
+                    evaluations += len(VARIANTS) * cl
+                    problems, flags = check_tree(vspec, kw, kname, opname=opn, calls=cl)
+                    for clause, detail in problems:
+                        rep.violation(clause, feats | {f"opname:{opn}", f"calls:{cl}"}, detail, {"variables": vspec, "kwargs": kw, "operation_name": opn, "calls": cl})
         distinct.add(json.dumps(vspec))
         for f in feats:
             tag_counts[f] = tag_counts.get(f, 0) + 1
